@@ -26,7 +26,7 @@ R12.5 the schema location and the require flag handed to the generator come from
 	c.Assumptions = []string{"gojsonschema validates as specified"}
 	c.Rule("R12.1", 2, "")
 	c.Rule("R12.2", 4, "")
-	c.Rule("R12.3", 6, "")
+	c.Rule("R12.3", 9, "")
 	c.Rule("R12.4", 4, "")
 	c.Rule("R12.5", 0, "")
 	r := loadRepo(c, packages.LoadSyntax, "", "./internal", "./template", "./config", "./internal/cmd")
@@ -183,6 +183,8 @@ func ruleGetTemplate(c *Ctx, r *Repo, ip *packages.Package) {
 		}
 		c.Check(ok && rows["true"] && rows["false"], "R12.3", "getTemplate|custom-schema-selection", r.Pos(loop.Pos()), "schema fetched iff require flag; errors returned", "custom-template schema selection is not 'fetch iff require-template-schema-exists, errors returned, nil only when not required'")
 	}
+	ruleRemoteCache(c, r, "R12.3")
+	ruleCacheKey(c, r, "R12.3")
 	// built-in: jsonSchemas[RECV.templateName], error for NewSchema failure
 	okBuiltin := false
 	ast.Inspect(fd.Body, func(n ast.Node) bool {
@@ -443,4 +445,120 @@ func schemaProperties(c *Ctx, name string) map[string]bool {
 		}
 	}
 	return out
+}
+
+// ruleRemoteCache: RemoteTemplate objects are shared by all output files of a run that use the same
+// template, so what Schema/Template hand out on the second and later calls is what the first call
+// stored: on every successful path of the first call (flag not yet set) the result is stored in the
+// cache field and that same value is returned; later calls return the cache field.
+func ruleRemoteCache(c *Ctx, r *Repo, rule string) {
+	ip := r.Pkg("internal")
+	info := ip.TypesInfo
+	for _, m := range []struct{ fn, flag, field string }{{"Schema", "RECV.schemaDownloaded", "RECV.schema"}, {"Template", "RECV.templateDownloaded", "RECV.templateString"}} {
+		fd := FuncDecl(ip, "RemoteTemplate."+m.fn)
+		if fd == nil {
+			c.Fail(rule, "RemoteTemplate."+m.fn+"|missing", "internal/remote_template.go", "RemoteTemplate."+m.fn+" not found")
+			continue
+		}
+		c.Func(funcKey(ip, fd))
+		paths, _ := enumerateFunc(info, fd)
+		ok := len(paths) > 0
+		why := ""
+		for _, p := range paths {
+			if p.Exit != "return" || len(p.Ret) != 2 {
+				ok, why = false, "a path does not return (value, error)"
+				continue
+			}
+			if p.Ret[1] != "nil" {
+				continue
+			}
+			done, has := p.atom(m.flag)
+			switch {
+			case !has:
+				ok, why = false, "a successful path does not consult "+m.flag
+			case done:
+				if p.Ret[0] != m.field {
+					ok, why = false, "a later call returns "+p.Ret[0]+" instead of the cached "+m.field
+				}
+			default:
+				stored := ""
+				for _, st := range p.Steps {
+					if strings.HasPrefix(st, "store "+m.field+" = ") {
+						stored = strings.TrimPrefix(st, "store "+m.field+" = ")
+					}
+				}
+				if stored == "" {
+					ok, why = false, "the first successful call does not store its result in "+m.field+": every later call (the next output file using this template) gets the zero value, i.e. no schema to validate against / an empty template"
+				} else if p.Ret[0] != m.field && p.Ret[0] != stored {
+					ok, why = false, "the first call returns "+p.Ret[0]+", which is not what it stored in "+m.field
+				}
+			}
+		}
+		c.Check(ok, rule, "RemoteTemplate."+m.fn+"|cache", r.Pos(fd.Pos()), "first call stores what it returns; later calls return the stored value", "RemoteTemplate."+m.fn+": "+why)
+	}
+}
+
+// ruleCacheKey: the per-run cache of remote templates is shared by all output files, which are
+// visited in map order. An entry must therefore depend on nothing but its key: every argument the
+// cached object is constructed from occurs in the key it is stored (and looked up) under; otherwise
+// which file is rendered first decides what the others get.
+func ruleCacheKey(c *Ctx, r *Repo, rule string) {
+	ip := r.Pkg("internal")
+	info := ip.TypesInfo
+	fd := FuncDecl(ip, "TemplateGenerator.getTemplate")
+	if fd == nil {
+		c.Fail(rule, "getTemplate|missing", "internal/template_generator.go", "getTemplate not found")
+		return
+	}
+	fc := newFuncCanon(info, fd)
+	isCache := func(e ast.Expr) bool {
+		se, ok := ast.Unparen(e).(*ast.SelectorExpr)
+		return ok && se.Sel.Name == "remoteTemplateCache"
+	}
+	var storeKey, ctor string
+	var ctorArgs []string
+	var lookups []string
+	var pos token.Pos
+	ast.Inspect(fd.Body, func(n ast.Node) bool {
+		switch x := n.(type) {
+		case *ast.AssignStmt:
+			for i, l := range x.Lhs {
+				if ie, ok := ast.Unparen(l).(*ast.IndexExpr); ok && isCache(ie.X) && len(x.Rhs) == len(x.Lhs) {
+					storeKey = fc.E(ie.Index)
+					ctor = fc.E(x.Rhs[i])
+					pos = x.Pos()
+				}
+			}
+			for _, rh := range x.Rhs {
+				if ie, ok := ast.Unparen(rh).(*ast.IndexExpr); ok && isCache(ie.X) {
+					lookups = append(lookups, fc.E(ie.Index))
+				}
+			}
+		case *ast.CallExpr:
+			if strings.HasSuffix(calleeName(info, x), "/internal.NewRemoteTemplate") {
+				ctorArgs = nil
+				for _, a := range x.Args {
+					ctorArgs = append(ctorArgs, fc.E(a))
+				}
+			}
+		}
+		return true
+	})
+	_ = ctor
+	if storeKey == "" || len(ctorArgs) == 0 || len(lookups) == 0 {
+		c.Fail(rule, "getTemplate|cache-key", r.Pos(fd.Pos()), "cannot find where getTemplate stores a NewRemoteTemplate(...) in remoteTemplateCache and looks it up")
+		return
+	}
+	missing := ""
+	for _, a := range ctorArgs {
+		if !strings.Contains(storeKey, a) {
+			missing = a
+		}
+	}
+	for _, l := range lookups {
+		if l != storeKey {
+			missing = "lookup key " + l + " differs from store key " + storeKey
+		}
+	}
+	c.Check(missing == "", rule, "getTemplate|cache-key", r.Pos(pos), "cache key covers every constructor argument: "+storeKey, fmt.Sprintf("the remote-template cache entry is built from %v but keyed by %s (%s is not part of the key): two files that agree on the key and differ in that value share whichever entry was created first, and files are rendered in map order, so the run is not deterministic", ctorArgs, storeKey, missing))
 }
